@@ -10,6 +10,7 @@
 namespace scn {
 using namespace cocls::verif;
 using vf::tracked;
+using qitem = vf::tracked_thr; // element type of the single-thread histories: counted payload whose in-place construction can throw
 
 enum { PS_PENDING = 0, PS_VALUE = 1, PS_EXC = 2, PS_CANCELED = 3 };
 inline const char *ps_name(int s) { static const char *n[] = {"pending", "value", "exception", "canceled"}; return n[s]; }
@@ -46,7 +47,7 @@ template <typename T> outcome observe_future(cocls::future<T> &f) {
 
 struct pop_rec {
     int mode = 0; // 0 raw future, 1 coroutine consumer
-    std::unique_ptr<cocls::future<tracked>> fut;
+    std::unique_ptr<cocls::future<qitem>> fut;
     outcome seen;     // written by the coroutine consumer
     int resumed = 0;  // coroutine consumer: times it continued after the co_await
 };
@@ -61,8 +62,8 @@ template <typename Q> cocls::async<void> pop_consumer(Q &q, pop_rec &rec) {
     try {
         uint64_t id;
         {
-            cocls::future<tracked> f = q.pop();
-            tracked &v = co_await f;
+            auto f = q.pop();
+            auto &v = co_await f;
             id = v.ok() ? v.id : 0xBADBADBAD;
         }
         rec.resumed++;
@@ -132,8 +133,8 @@ struct q_model {
     }
 };
 
-enum { QO_PUSH = 0, QO_POP = 1, QO_UNBLOCK_POP = 2, QO_UNBLOCK_PUSH = 3, QO_SIZE = 4, QO_DESTROY = 5 };
-inline const char *qo_name(int o) { static const char *n[] = {"push", "pop", "unblock_pop", "unblock_push", "size", "destroy"}; return n[o]; }
+enum { QO_PUSH = 0, QO_POP = 1, QO_UNBLOCK_POP = 2, QO_UNBLOCK_PUSH = 3, QO_SIZE = 4, QO_DESTROY = 5, QO_PUSH_THROW = 6 };
+inline const char *qo_name(int o) { static const char *n[] = {"push", "pop", "unblock_pop", "unblock_push", "size", "destroy", "push(unconstructible)"}; return n[o]; }
 
 struct q_step { int op; int mode; };
 
@@ -141,7 +142,7 @@ struct q_step { int op; int mode; };
 // Limited=false: cocls::queue<tracked>; Limited=true: cocls::limited_queue<tracked>(limit)
 template <bool Limited>
 std::string run_queue_history(const std::vector<q_step> &steps, size_t limit, bool coro_mode, std::string &trace) {
-    using Q = std::conditional_t<Limited, cocls::limited_queue<tracked>, cocls::queue<tracked>>;
+    using Q = std::conditional_t<Limited, cocls::limited_queue<qitem>, cocls::queue<qitem>>;
     std::unique_ptr<Q> q;
     if constexpr (Limited) q = std::make_unique<Q>(limit); else q = std::make_unique<Q>();
     q_model M; M.limit = Limited ? limit : 0;
@@ -197,7 +198,7 @@ std::string run_queue_history(const std::vector<q_step> &steps, size_t limit, bo
                 pops.emplace_back();
                 pop_rec &pr = pops.back();
                 pr.mode = s.mode;
-                if (s.mode == 0) pr.fut = std::unique_ptr<cocls::future<tracked>>(new cocls::future<tracked>(q->pop()));
+                if (s.mode == 0) pr.fut = std::unique_ptr<cocls::future<qitem>>(new cocls::future<qitem>(q->pop()));
                 else if (!coro_mode) pop_consumer(*q, pr).detach();
                 else { auto sp = pop_consumer(*q, pr).detach(); sp.pop().resume(); } // start now, not at drain time
                 break;
@@ -217,6 +218,22 @@ std::string run_queue_history(const std::vector<q_step> &steps, size_t limit, bo
                     bool m = M.unblock_push(code);
                     bool r = q->unblock_push(vf::make_exc(code));
                     if (r != m) err = std::string("unblock_push returned ") + (r ? "true" : "false") + ", model says " + (m ? "true" : "false");
+                }
+                break;
+            }
+            case QO_PUSH_THROW: { // emplace-style push whose item constructor throws (only generated in normal mode)
+                int code = 9000 + (int)si;
+                try {
+                    if constexpr (Limited) { cocls::future<void> f = q->push(vf::bomb{code}); if (!f.ready()) err = "push of an unconstructible item returned a pending future"; }
+                    else { bool woke = q->push(vf::bomb{code}); (void)woke; }
+                } catch (const vf::test_exc &e) { if (e.code != code) err = "foreign exception escaped push"; }
+                // The statement does not prescribe the fate of the pop that was about to receive the unconstructible item: it may complete
+                // with the constructor's exception (or as cancelled), or keep waiting - then it must still be first in line. Nothing is
+                // stored and nobody else is affected (checked by the comparison with the model below and after every later step).
+                if (!M.waiting_pops.empty()) {
+                    int p = M.waiting_pops.front();
+                    outcome ob = pops[(size_t)p].mode == 0 ? observe_future(*pops[(size_t)p].fut) : pops[(size_t)p].seen;
+                    if ((ob.state == PS_EXC && ob.code == code) || ob.state == PS_CANCELED) { M.waiting_pops.pop_front(); M.pops[(size_t)p] = ob; }
                 }
                 break;
             }
@@ -267,6 +284,7 @@ void queue_history(const vf::opts &o, vf::report &R, uint64_t histories) {
             else if (x < 95) op = Limited ? QO_UNBLOCK_PUSH : QO_UNBLOCK_POP;
             else if (x < 98) op = QO_SIZE;
             else op = QO_DESTROY;
+            if (op == QO_PUSH && !coro_mode && r.chance(1, 12)) op = QO_PUSH_THROW;
             steps.push_back({op, (int)r.chance(1, 2)});
         }
         std::string trace;
